@@ -1467,6 +1467,9 @@ impl Evaluator {
         destination.set_is_ntt_form(encrypted.is_ntt_form());
         if scheme == SchemeType::CKKS {
             destination.set_scale(encrypted.scale() / parms.coeff_modulus().last().unwrap().value() as f64);
+            if !Self::is_scale_within_bounds(destination.scale(), &next_context_data) {
+                panic!("[Invalid argument] Scale out of bounds");
+            }
         } else if scheme == SchemeType::BGV {
             destination.set_correction_factor(util::multiply_u64_mod(
                 encrypted.correction_factor(), rns_tool.inv_q_last_mod_t(), next_parms.plain_modulus()
